@@ -13,8 +13,9 @@
    C02_mirror_meaning unfolds this into the statement of the property.
 
    NOT covered by this model (see ASSUMPTIONS in harness/props/c02.py): constructors other
-   than fromFiber-style loading, transforms, deepcopy, populate loops (C05), fiber-valued
-   append/setitem/<<= (suspect S22). *)
+   than fromFiber-style loading, transforms, deepcopy, populate loops (C05).  The fiber-valued
+   mutators (append / extend / __setitem__ with a fiber, fiber <<= fiber: Fiber._registerPayload
+   and _disownPayload, the S22 fix) ARE operations of the model. *)
 From Coq Require Import ZArith List Bool Permutation.
 From FT Require Import Model.Base Model.Obs Model.Store Model.StoreCheck
                        Proofs.StoreWF Proofs.StoreCheckP Proofs.StoreMirror Proofs.StoreMirrorCheck.
@@ -36,7 +37,9 @@ Print Assumptions C02_init_mirror.
    ill-addressed — keeps it: getPayloadRef creating a chain of new fibers at any depth,
    iterRangeShapeRef, getPositionRef, getPayloadRef(start_pos), clear (with the removal of the
    dead fibers from their ranks), append, __setitem__, updateCoords (re-ordering the children,
-   both the affine and the table form), updatePayloads, and the reads *)
+   both the affine and the table form), updatePayloads, the reads, and the fiber-valued
+   mutators: append(c, fiber), extend(fiber), f[pos] = fiber (the replaced sub-tree leaves the
+   ranks, the new one is registered depth-first), f <<= fiber *)
 Theorem C02_step_mirror : forall s o, wf_st s -> Mirror s -> Mirror (fst (step s o)).
 Proof. exact step_mirror. Qed.
 Print Assumptions C02_step_mirror.
@@ -121,4 +124,34 @@ Example C02_nonvacuous :
   /\ map (fun k => ids k (s_root (run s0 (h_ops c)))) [0; 1; 2]%nat
      = [[0]; [5; 4; 1]; [6; 7; 8; 9]]%nat
   /\ holds c02_checker c (model c02_checker c) = true.
+Proof. vm_compute. repeat split. Qed.
+
+(* non-vacuity for the fiber-valued mutators: g <<= fiber (only the non-empty elements are
+   copied, into fresh fibers), append of a fiber with two sub-fibers, f[0] = fiber (the
+   replaced sub-tree 1,2,3 leaves the ranks, the new fibers 10,11 go to the end of their
+   ranks), extend with two sub-fibers, extend with an all-default fiber (a nop), an append
+   refused by the order assertion and a position assignment refused with IndexError *)
+Example C02_fiber_mutators_nonvacuous :
+  let c := {| h_n := 3; h_d := 0;
+              h_tree := Node [(1, Node [(0, Node [(2, Leaf 5)]); (6, Node [])]); (4, Node [])];
+              h_ops := [OAssignFib [4] (Node [(1, Node [(3, Leaf 7); (4, Leaf 0)]); (2, Node []);
+                                              (7, Node [(2, Leaf 9)])]);
+                        OAppendFib [] 9 (Node [(1, Node [(3, Leaf 7)]); (2, Node [])]);
+                        OSetItemFib [] 0 (Node [(3, Node [(1, Leaf 1)])]);
+                        OExtend [9] (Node [(5, Node [(0, Leaf 0)]); (8, Node [(1, Leaf 2)])]);
+                        OExtend [9] (Node [(9, Node [(0, Leaf 0)])]);
+                        OAppendFib [] 3 (Node []); OSetItemFib [] 5 (Node [])] |} in
+  let s0 := init (h_n c) (h_d c) (h_tree c) in
+  wf_case c = true
+  /\ map (fun k => s_ranks (run s0 (firstn k (h_ops c)))) [0; 1; 2; 3; 4; 5]%nat
+     = [ [[0]; [1; 4]; [2; 3]]; [[0]; [1; 4]; [2; 3; 5; 6]]; [[0]; [1; 4; 7]; [2; 3; 5; 6; 8; 9]];
+         [[0]; [4; 7; 10]; [5; 6; 8; 9; 11]]; [[0]; [4; 7; 10]; [5; 6; 8; 9; 11; 12; 13]];
+         [[0]; [4; 7; 10]; [5; 6; 8; 9; 11; 12; 13]] ]%nat
+  /\ map (fun k => ids k (s_root (run s0 (h_ops c)))) [0; 1; 2]%nat
+     = [[0]; [10; 4; 7]; [11; 5; 6; 8; 9; 12; 13]]%nat
+  /\ map (fun k => snd (step (run s0 (firstn k (h_ops c))) (nth k (h_ops c) (OGet []))))
+         [0; 1; 2; 3; 4; 5; 6]%nat
+     = [Done RNone; Done RNone; Done RNone; Done RNone; Done RNone; Rejected; Rejected]
+  /\ holds c02_checker c (model c02_checker c) = true
+  /\ holds c01_checker c (model c01_checker c) = true.
 Proof. vm_compute. repeat split. Qed.
